@@ -16,7 +16,7 @@ func init() {
 	register(&propDef{
 		ID: "C02",
 		Meta: propMeta{
-			Explanation: "Decides that every registered verifier is wired to live, fail-closed integrity primitives: (R02a) liveness — every digest comparison (hmac.Equal / ConstantTimeCompare, and the tabled string / bytes comparisons of JAR, DEB, legacy timestamps) in code reachable from a verifier sits in a block that is still reachable after inter-procedural propagation of constant nil/bool arguments (a comparison that is only reachable when a parameter is non-nil, while every call site passes nil, is dead code), and each verifier reaches at least the frozen number of live comparison sites and signature primitives; (R02b) fail-closed — from the mismatch edge of each comparison no success return is reachable without crossing the match edge of a comparison in the same function, and the result is never discarded; (R02c) the only switches that may disable a comparison are the skip-digests parameters: no comparison is control-dependent on a package-level boolean or an environment variable; (R02d) signature primitives (rsa/ecdsa verify, PkixVerify, SignerInfo.Verify, SignedData.Verify, OpenPGP, rpmutils.Verify) never have their failure dropped, and a failure reaches a success return only through another primitive (fallback idiom); (R02e) the verify command validates certificate chains unless --no-trust-chain was given, and SignerInfo.Verify checks the messageDigest attribute whenever attributes are present.",
+			Explanation: "Decides that every registered verifier is wired to live, fail-closed integrity primitives: (R02a) liveness — every digest comparison (hmac.Equal / ConstantTimeCompare, and the tabled string / bytes comparisons of JAR, DEB, legacy timestamps) in code reachable from a verifier sits in a block that is still reachable after inter-procedural propagation of constant nil/bool arguments (a comparison that is only reachable when a parameter is non-nil, while every call site passes nil, is dead code), and each verifier reaches at least the frozen number of live comparison sites and signature primitives; (R02b) fail-closed — from the mismatch edge of each comparison no success return is reachable without crossing the match edge of a comparison in the same function, and the result is never discarded; (R02c) the only switches that may disable a comparison are the skip-digests parameters: no comparison is control-dependent on a package-level boolean or an environment variable; (R02d) signature primitives (rsa/ecdsa verify, PkixVerify, SignerInfo.Verify, SignedData.Verify, OpenPGP, rpmutils.Verify) never have their failure dropped, and a failure reaches a success return only through another primitive (fallback idiom); (R02e) the verify command validates certificate chains unless --no-trust-chain was given, and SignerInfo.Verify checks the messageDigest attribute whenever attributes are present; (R02f) a digest comparison is never made conditional on another comparison's expected value; (R02g) the certificate reported as signer is chosen only under an equality that binds it to the verifying key; (R02h) a verifier loop never skips an entry unverified unless an empty result is refused afterwards, and the JAR manifest parser stores every named section it parsed (last occurrence wins, as in the signature-file check); (R02i) the element whose digest values are compared with the files is the element the XML signature covers (Signature.Reference), not a fresh lookup; (R02j) xmldsig.Verify requires exactly one SignedInfo (or parses the reference from the very element it hashes).",
 			NotDecided:  "that each format's protected byte set is completely covered by what is digested, chain-building semantics of crypto/x509, grafting / appended-content cases; those need the format specifications and concrete bytes.",
 			Assumptions: []string{"constant-time comparisons compare what they are given", "moduleReachAll over-approximates the call graph (interfaces and function values resolved by type)"},
 		},
@@ -334,7 +334,7 @@ func runC02(c *Ctx) {
 	// comparisons shared by all PKCS#7-based verifiers (messageDigest attribute, RFC 3161
 	// imprint, legacy timestamp content) and, where present, the detached-content comparison
 	frozen := map[string]need{
-		"pe-coff": {6, 5}, "msi": {5, 5}, "cab": {4, 5}, "ps": {4, 5}, "xap": {4, 5}, "jar": {4, 5}, "apk": {4, 8},
+		"pe-coff": {6, 5}, "msi": {5, 5}, "cab": {4, 5}, "ps": {4, 5}, "xap": {4, 5}, "jar": {4, 5}, "apk": {5, 8},
 		"appx": {7, 5}, "vsix": {4, 5}, "appmanifest": {5, 5}, "mach-o": {8, 5}, "mach-o-fat": {8, 5}, "ipa": {8, 5}, "dmg": {8, 5}, "xar": {5, 5},
 		"deb": {1, 1}, "rpm": {0, 1}, "pgp": {0, 2}, "pkcs7": {3, 5},
 	}
@@ -379,6 +379,9 @@ func runC02(c *Ctx) {
 	c02SkipArgs(c)
 	c02Independence(c, sites)
 	c02SignerBinding(c)
+	c02LoopSkips(c, all)
+	c02VerifiedObject(c)
+	c02SignedInfoUnique(c)
 }
 
 // c02Independence (R02f): within one function, a digest comparison must not be skipped
@@ -1123,4 +1126,289 @@ func c02Misc(c *Ctx) {
 		}
 		c.Check(ok, "R02e", "(*lib/pkcs7.SignerInfo).Verify messageDigest", p.Pos(fn.Pos()), "with authenticated attributes the messageDigest attribute is read and compared before the signature check", "with authenticated attributes present the signature is checked without first reading the messageDigest attribute (content no longer bound to the signature)")
 	}
+}
+
+// ------------------------------------------------------------------------------ R02h / R02i
+
+// loopHeaderOf: blocks of the innermost natural loop around b that is entered from outside, and
+// its header (the block of the loop with a predecessor outside it). nil if b is in no cycle.
+func loopAround(fn *ssa.Function, b *ssa.BasicBlock) (map[int]bool, *ssa.BasicBlock) {
+	from := reach(fn, b.Succs, nil, nil)
+	if !from[b.Index] {
+		return nil, nil
+	}
+	L := map[int]bool{}
+	for _, x := range fn.Blocks {
+		if from[x.Index] && reach(fn, []*ssa.BasicBlock{x}, nil, nil)[b.Index] {
+			L[x.Index] = true
+		}
+	}
+	for _, x := range fn.Blocks {
+		if !L[x.Index] {
+			continue
+		}
+		for _, pb := range x.Preds {
+			if !L[pb.Index] {
+				return L, x
+			}
+		}
+	}
+	return L, nil
+}
+
+// iterationSkips: can one iteration of the loop around `must` come back to the loop header
+// without executing `must` (starting at `from`, or at the header when from is nil)?
+func iterationSkips(fn *ssa.Function, must ssa.Instruction, from ssa.Instruction) ([]string, bool) {
+	L, H := loopAround(fn, must.Block())
+	if H == nil {
+		return nil, false
+	}
+	del := map[edge]bool{}
+	for _, pb := range must.Block().Preds {
+		for si, s := range pb.Succs {
+			if s == must.Block() {
+				del[edge{pb.Index, si}] = true
+			}
+		}
+	}
+	// edges leaving the loop are not part of an iteration
+	for bi := range L {
+		for si, s := range fn.Blocks[bi].Succs {
+			if !L[s.Index] {
+				del[edge{bi, si}] = true
+			}
+		}
+	}
+	var starts []*ssa.BasicBlock
+	if from != nil {
+		if from.Block() == must.Block() {
+			return nil, false
+		}
+		starts = succsFrom(from.Block(), del)
+	} else {
+		if H == must.Block() {
+			return nil, false
+		}
+		starts = succsFrom(H, del)
+	}
+	pred := map[int]int{}
+	seen := reach(fn, starts, del, pred)
+	// back at the header (or at the start marker) = next iteration
+	target := H
+	if from != nil {
+		target = from.Block()
+	}
+	if seen[target.Index] {
+		return nil, true
+	}
+	return nil, false
+}
+
+func c02LoopSkips(c *Ctx, all map[*ssa.Function]bool) {
+	p := c.P
+	c.Rule("R02h", "a verifier loop never skips an entry unverified unless 'nothing verified' is tested afterwards; every named manifest section that is parsed is stored", 3)
+	prims := map[string]bool{
+		"lib/authenticode.checkSignature": true, "(*signers/apk.apkSigner).Verify": true,
+		"(*lib/pkcs7.SignedData).Verify": true, "lib/signjar.verifySigFile": true, "lib/signjar.verifyPkcs": true,
+	}
+	var fns []*ssa.Function
+	for f := range all {
+		fns = append(fns, f)
+	}
+	sort.Slice(fns, func(i, j int) bool { return p.FName(fns[i]) < p.FName(fns[j]) })
+	n := 0
+	for _, fn := range fns {
+		k := 0
+		for _, b := range fn.Blocks {
+			for _, in := range b.Instrs {
+				call, ok := in.(*ssa.Call)
+				if !ok || !prims[p.calleeName(call.Common())] {
+					continue
+				}
+				if _, H := loopAround(fn, b); H == nil {
+					continue
+				}
+				n++
+				k++
+				key := fmt.Sprintf("%s loop around %s#%d", p.FName(fn), p.calleeName(call.Common()), k)
+				c.Analysed(p.FName(fn))
+				_, skips := iterationSkips(fn, call, nil)
+				if !skips {
+					c.Pass("R02h", key, p.Pos(call.Pos()), "every iteration verifies its entry")
+					continue
+				}
+				// a later "nothing was verified" test on every success path
+				empty := Guard{Name: "len(result) != 0", Match: func(f Fact) bool {
+					bo, ok := f.V.(*ssa.BinOp)
+					if !ok {
+						return false
+					}
+					lc, ok := bo.X.(*ssa.Call)
+					if !ok {
+						return false
+					}
+					bi, ok := lc.Call.Value.(*ssa.Builtin)
+					if !ok || bi.Name() != "len" || !isIntConst(bo.Y, 0) {
+						return false
+					}
+					return (bo.Op == token.EQL && f.Kind == IsFalse) || (bo.Op == token.NEQ && f.Kind == IsTrue) || (bo.Op == token.GTR && f.Kind == IsTrue)
+				}}
+				okAll := true
+				for _, r := range p.successReturns(fn) {
+					if !reachableAfter(fn, call, r, nil, nil) && !reach(fn, []*ssa.BasicBlock{fn.Blocks[0]}, nil, nil)[r.Block().Index] {
+						continue
+					}
+					if missing, _ := p.unguardedFromEntry(fn, r, empty); len(missing) > 0 {
+						okAll = false
+					}
+				}
+				c.Check(okAll, "R02h", key, p.Pos(call.Pos()), "entries may be skipped, but an empty result is refused afterwards", "an iteration of the verification loop can skip its entry without verifying it, and the function can still succeed with nothing verified: an artifact whose only signature entry is of the skipped kind is reported as valid")
+			}
+		}
+	}
+	if n < 2 {
+		c.Undecided("R02h", "verifier loops", "-", fmt.Sprintf("only %d loops around a verification call found (3 confirmed by reading)", n))
+	}
+	// JAR manifest: a named section that was parsed is stored
+	if pm := p.Func("lib/signjar.parseManifest"); pm == nil {
+		c.Undecided("R02h", "signjar.parseManifest", "-", "function not found")
+	} else {
+		c.Analysed(p.FName(pm))
+		var getName ssa.CallInstruction
+		for _, ci := range p.callsIn(pm, "(net/http.Header).Get") {
+			if s, ok := constString(ci.Common().Args[1]); ok && s == "Name" {
+				getName = ci
+			}
+		}
+		var upd *ssa.MapUpdate
+		for _, b := range pm.Blocks {
+			for _, in := range b.Instrs {
+				if mu, ok := in.(*ssa.MapUpdate); ok {
+					if l, ok := mu.Map.(*ssa.UnOp); ok && p.memKey(l.X) == "f:lib/signjar.FilesMap.Files" {
+						upd = mu
+					}
+				}
+			}
+		}
+		if getName == nil || upd == nil {
+			c.Undecided("R02h", "parseManifest section store", p.Pos(pm.Pos()), "Name lookup or the store into FilesMap.Files not found")
+		} else {
+			_, skips := iterationSkips(pm, upd, getName)
+			c.Check(!skips, "R02h", "parseManifest stores every named section it parsed", p.Pos(upd.Pos()), "last section of a name wins, as in verifySigFile", "a named manifest section can be parsed and then dropped (not stored into FilesMap.Files): when a name occurs twice, the file digests are checked against one occurrence while the signature file's section digest is checked against the other, so a forged duplicate section makes a replaced payload verify")
+		}
+	}
+}
+
+// c02VerifiedObject (R02i): what is consumed after xmldsig.Verify is the element the signature
+// covers (Signature.Reference), not something looked up again in the unverified document.
+func c02VerifiedObject(c *Ctx) {
+	p := c.P
+	c.Rule("R02i", "digest values are taken from the element the XML signature covers, not from a fresh lookup in the document", 1)
+	n := 0
+	for _, fn := range p.Funcs {
+		vs := p.callsIn(fn, "lib/xmldsig.Verify")
+		if len(vs) == 0 {
+			continue
+		}
+		for _, b := range fn.Blocks {
+			for _, in := range b.Instrs {
+				ci, ok := in.(ssa.CallInstruction)
+				if !ok {
+					continue
+				}
+				g := ci.Common().StaticCallee()
+				if g == nil || pkgOf(g) != pkgOf(fn) || g.Blocks == nil {
+					continue
+				}
+				// callee compares digests and takes an element
+				cmp := false
+				for f := range p.moduleReachOpt([]*ssa.Function{g}, false) {
+					if pkgOf(f) == pkgOf(g) && len(p.callsIn(f, "crypto/hmac.Equal", "bytes.Equal")) > 0 {
+						cmp = true
+					}
+				}
+				if !cmp {
+					continue
+				}
+				for ai, a := range ci.Common().Args {
+					if !strings.HasSuffix(a.Type().String(), "etree.Element") {
+						continue
+					}
+					n++
+					key := fmt.Sprintf("%s passes the verified element to %s", p.FName(fn), p.FName(g))
+					c.Analysed(p.FName(fn))
+					ok := dependsOn(a, func(x ssa.Value) bool {
+						tn, f, _ := p.fieldLoad(x)
+						if strings.HasSuffix(tn, "xmldsig.Signature") && f == "Reference" {
+							return true
+						}
+						tn, f, _ = p.fieldAddr(x)
+						return strings.HasSuffix(tn, "xmldsig.Signature") && f == "Reference"
+					})
+					_ = ai
+					c.Check(ok, "R02i", key, p.Pos(ci.Pos()), "argument is Signature.Reference", "the element whose digest values are compared with the files is not the element the XML signature covers (Signature.Reference) but one looked up in the document again: an unsigned element inserted in front of the signed one is consumed instead (signature wrapping), and a replaced payload verifies")
+				}
+			}
+		}
+	}
+	if n < 1 {
+		c.Undecided("R02i", "consumers of a verified XML element", "-", "none found (1 confirmed by reading: vsix.verify -> checkManifest)")
+	}
+}
+
+// c02SignedInfoUnique (R02j): xmldsig.Verify reads algorithms and the reference digest from a
+// struct parse of the whole Signature (encoding/xml: a repeated element overrides the earlier
+// one) but hashes one SignedInfo element; the two must be the same element.
+func c02SignedInfoUnique(c *Ctx) {
+	p := c.P
+	c.Rule("R02j", "the SignedInfo whose signature is checked is the one the reference digest is read from", 1)
+	ver := p.Func("lib/xmldsig.Verify")
+	if ver == nil {
+		c.Undecided("R02j", "xmldsig.Verify", "-", "function not found")
+		return
+	}
+	c.Analysed(p.FName(ver))
+	unique := Guard{Name: "exactly one SignedInfo", Match: func(f Fact) bool {
+		bo, ok := f.V.(*ssa.BinOp)
+		if !ok {
+			return false
+		}
+		lc, ok := bo.X.(*ssa.Call)
+		if !ok {
+			return false
+		}
+		bi, ok := lc.Call.Value.(*ssa.Builtin)
+		if !ok || bi.Name() != "len" || !isIntConst(bo.Y, 1) {
+			return false
+		}
+		sel, _ := resultOf(lc.Call.Args[0])
+		if sel == nil || !strings.HasSuffix(p.calleeName(sel.Common()), "etree.Element).SelectElements") {
+			return false
+		}
+		if s, ok := constString(sel.Common().Args[1]); !ok || s != "SignedInfo" {
+			return false
+		}
+		return (bo.Op == token.EQL && f.Kind == IsTrue) || (bo.Op == token.NEQ && f.Kind == IsFalse)
+	}}
+	okGuard := true
+	for _, r := range p.successReturns(ver) {
+		if missing, _ := p.unguardedFromEntry(ver, r, unique); len(missing) > 0 {
+			okGuard = false
+		}
+	}
+	// alternative: the struct is parsed from the very element that is hashed
+	okSame := false
+	var hashed ssa.Value
+	for _, ci := range p.callsIn(ver, "lib/xmldsig.hashCanon") {
+		if call, _ := resultOf(ci.Common().Args[0]); call != nil && strings.HasSuffix(p.calleeName(call.Common()), "etree.Element).SelectElement") {
+			hashed = ci.Common().Args[0]
+		}
+	}
+	for _, ci := range p.callsIn(ver, "encoding/xml.Unmarshal") {
+		if hashed != nil && dependsOn(ci.Common().Args[0], func(x ssa.Value) bool { return x == hashed }) {
+			okSame = true
+		}
+	}
+	c.Check(okGuard || okSame, "R02j", "xmldsig.Verify binds the parsed reference to the hashed SignedInfo", p.Pos(ver.Pos()), map[bool]string{true: "exactly one SignedInfo is required", false: "struct parsed from the hashed element"}[okGuard],
+		"Verify checks the signature over one SignedInfo element but reads digest method, transforms and DigestValue from a parse of the whole Signature, where a repeated SignedInfo overrides the first, and nothing requires the Signature to have exactly one: an appended unsigned SignedInfo carrying the digest of a modified document makes that document verify")
 }
